@@ -281,3 +281,22 @@ def make_engine(repo):
     for c in ALL:
         eng.register_class(c)
     return eng
+
+
+# ---- get_common_count / get_uncommon_count: the two add up to total --------------------------------------------------------------
+def common_term(c, st=None):
+    """sum over the tracked keys of their counts, as the engine's uninterpreted sum of the per-key term"""
+    p = parts(c, st)
+    k = z3.Const('kc', Val)
+    return c.eng.f_keysum(z3.Lambda([k], z3.If(z3.Select(p['dom'], k), z3.Select(p['c0'], z3.Select(p['val'], k)), 0)))
+
+
+common = Contract('ThresholdCounter.get_common_count', setup=lambda eng, st: dict(self=setup_self(eng, st)),
+                  requires=reader_requires, ensures=lambda c: [('the sum of the tracked counts', c.r() == common_term(c))],
+                  modifies=NO_MOD, returns=lambda c: SInt(c.st.fresh.const('common', z3.IntSort())))
+uncommon = Contract('ThresholdCounter.get_uncommon_count', setup=lambda eng, st: dict(self=setup_self(eng, st)),
+                    requires=reader_requires,
+                    ensures=lambda c: [('get_common_count() + get_uncommon_count() == total', c.r() + common_term(c) == parts(c)['total'])],
+                    modifies=NO_MOD)
+CONTRACTS['ThresholdCounter.get_common_count'] = common
+CONTRACTS['ThresholdCounter.get_uncommon_count'] = uncommon
